@@ -39,12 +39,13 @@ def _excused(o, repf, modelf):
     It does when the same rule has obligations for the same construct there and all of them hold (never when it has none:
     a rule that no longer recognises the construct proves nothing).  A construct that the form removed (a private helper
     expanded at all its call sites) is judged by the obligations of its class/module siblings."""
-    same = [p for p in repf.obligations if p.rule == o.rule and p.construct == o.construct]
+    known = [e for e in repf._known() if e.get('status') == 'known']
+    same = [p for p in repf.obligations if p.rule == o.rule and p.construct == o.construct and not (not p.ok and any(repf._matches(e, p) for e in known))]
     if same:
         return all(p.ok for p in same)
     if ':' in o.construct and o.construct not in modelf.functions and o.construct not in modelf.classes:
         prefix = o.construct.rsplit('.', 1)[0] + '.' if '.' in o.construct.split(':', 1)[1] else o.construct.split(':', 1)[0] + ':'
-        sib = [p for p in repf.obligations if p.rule == o.rule and p.construct.startswith(prefix)]
+        sib = [p for p in repf.obligations if p.rule == o.rule and p.construct.startswith(prefix) and not (not p.ok and any(repf._matches(e, p) for e in known))]
         return bool(sib) and all(p.ok for p in sib)
     return False
 
@@ -133,7 +134,7 @@ def _retry_with_reference_names(pid, tier, root, evidence_dir=None, quiet=True):
     behaviour, so the rules are run once more on the tree with the locals of every function renamed towards the reference naming of the anchored
     tree (oracles/local_names.json, by binding order).  Returns the complete report of that run, or None if it cannot be analysed either."""
     rep = None
-    for form in ('names', 'names+canon'):
+    for form in ('names', 'names+canon', 'names+vocab', 'names+all'):
         try:
             rep, _ = _run_rules(pid, tier, root, form, evidence_dir=evidence_dir, quiet=quiet)
             break
